@@ -632,6 +632,12 @@ func registerMisc() {
 		a[14] = i.ctx.Const(bv8, uint64(n>>8))
 		return a
 	}
+	intrinsics["github.com/arana-db/parser/charset.HackSlice"] = func(i *Interp, fr *frame, fn *ssa.Function, args []value) value {
+		return i.conv(i.byteSliceType(), types.Typ[types.String], args[0])
+	}
+	intrinsics["github.com/arana-db/parser/charset.HackString"] = func(i *Interp, fr *frame, fn *ssa.Function, args []value) value {
+		return i.conv(types.Typ[types.String], i.byteSliceType(), args[0])
+	}
 	intrinsics["sort.Slice"] = func(i *Interp, fr *frame, fn *ssa.Function, args []value) value {
 		i.sortSlice(fr, args[0].(iface), args[1])
 		return nil
